@@ -12,8 +12,10 @@ starting at the root; a normal component descends (whether or not the name exist
 is found out by the operation at the end); `..` goes to the parent of the directory reached so far,
 and it is valid only if everything before it names an existing **directory** (Linux: `ENOENT` for
 `missing/../x`, `ENOTDIR` for `file/../x`). An operation on a path string that does not resolve
-fails by value and leaves the tree as it was. A path string whose last component is `..` can only
-name a directory (`dirOnly`), exactly like one with a trailing `/`.
+fails by value and leaves the tree as it was. A path string whose last component is `..` or `.`
+can only name a directory (`dirOnly`), exactly like one with a trailing `/`: `g/.` with `g` a file
+names nothing (Linux: `ENOTDIR`), and `mkdir`, `rmdir`, `open(O_CREAT)`, `unlink` of a path whose last
+component is `.` or `..` fail whatever it names (`lastDots`). Elsewhere in the string `.` is dropped.
 
 The one deliberate simplification: `..` at the root stays at the root (Linux: `/..` = `/`). For the
 real root that is what Linux does; for the *sandbox* root it is not (the parent of the sandbox
@@ -22,8 +24,9 @@ root.
 
 Symlinks and permissions are outside the model.
 
-For a path string without a `..` component every operation below is what it was before `..` was
-brought into the model (`Aplang.Fs.Lexical`, `*_eq_lexical` in Proofs/FsLemmas.lean).
+For a path string without a `..` component and without a last component `.` below a name
+(`lexicalOK`) every operation below is what it was before `..` and the final `.` were brought into
+the model (`Aplang.Fs.Lexical`, `*_eq_lexical` in Proofs/FsLemmas.lean).
 -/
 namespace Aplang.Fs
 
@@ -69,6 +72,20 @@ def noDotDot (s : Str) : Bool := !(components s).contains dotdot
 /-- the last component of the path string is `..` -/
 def endsDotDot (s : Str) : Bool := (components s).getLast? == some dotdot
 
+/-- the last component of the path string as written is `.` (`g/.`, `g/./`, `g/./.`, `.`) -/
+def endsDot (s : Str) : Bool := ((splitSlash s).filter (fun c => c != [])).getLast? == some ['.']
+
+/-- the last component is `.` or `..`: `mkdir`, `rmdir` of such a path fail (`EEXIST` or `ENOENT`;
+`EINVAL` or `ENOTEMPTY`) -/
+def lastDots (s : Str) : Bool := endsDot s || endsDotDot s
+
+/-- neither a `..` component nor a last component `.` -/
+def plain (s : Str) : Bool := noDotDot s && !endsDot s
+
+/-- the strings on which the model is the lexical one (`Aplang.Fs.Lexical`): no `..` component, and a
+last component `.` only when there is no name in the string at all (`.`, `./`, `./.`: the root) -/
+def lexicalOK (s : Str) : Bool := noDotDot s && (!endsDot s || components s == [])
+
 /-- the walk of the kernel over the components `cs`, standing at the directory `cur`: a normal
 component descends; `..` needs `cur` to be an existing directory and goes to its parent (the root is
 its own parent) -/
@@ -85,9 +102,10 @@ def resolve (t : Tree) (s : Str) : Option Path := resolveFrom t [] (components s
 /-- a trailing `/` demands a directory: `f/` never names a file -/
 def trailingSlash (s : Str) : Bool := s.getLast? == some '/'
 
-/-- the path string can only name a directory: it ends in `/`, or its last component is `..`
-(Linux: `EISDIR` for `open(O_CREAT)` and `unlink` of such a path, whatever it resolves to) -/
-def dirOnly (s : Str) : Bool := trailingSlash s || endsDotDot s
+/-- the path string can only name a directory: it ends in `/`, or its last component is `..` or `.`
+(Linux: `ENOTDIR` when it names a file; `EISDIR` for `open(O_CREAT)` and `unlink` of such a path,
+whatever it resolves to) -/
+def dirOnly (s : Str) : Bool := trailingSlash s || lastDots s
 
 /-! ## the operations at a resolved path
 
@@ -123,14 +141,14 @@ def fileOverwriteAt (t : Tree) (s : Str) (p : Path) (text : Str) : Tree × Bool 
   | some (.file _) => (put t p (.file text), true)
   | _ => (t, false)
 
-/-- `mkdir("a/..")` is `EEXIST`: what `a/..` names exists -/
+/-- `mkdir("a/..")`, `mkdir("a/.")` are `EEXIST` (or `ENOENT`: `mkdir("new/.")`) -/
 def dirCreateAt (t : Tree) (s : Str) (p : Path) : Tree × Bool :=
-  if s == [] || endsDotDot s || p == [] || pathExists t p || !isDir t (parent p) then (t, false)
+  if s == [] || lastDots s || p == [] || pathExists t p || !isDir t (parent p) then (t, false)
   else (put t p .dir, true)
 
-/-- `rmdir` of a path whose last component is `..` fails (`ENOTEMPTY`) -/
+/-- `rmdir` of a path whose last component is `..` fails (`ENOTEMPTY`), and so does `rmdir("k/.")` (`EINVAL`) -/
 def dirRemoveAt (t : Tree) (s : Str) (p : Path) : Tree × Bool :=
-  if s != [] && !endsDotDot s && p != [] && isDir t p && (children t p).isEmpty then (erase t p, true)
+  if s != [] && !lastDots s && p != [] && isDir t p && (children t p).isEmpty then (erase t p, true)
   else (t, false)
 
 /-- `remove_dir_all(s)` first removes everything below the directory `s` names, then calls `rmdir(s)` — and
@@ -139,13 +157,14 @@ def dirRemoveAt (t : Tree) (s : Str) (p : Path) : Tree × Bool :=
   `remove_dir_all` takes as done: success, and the directory named stays, empty
   (`remove_dir_all("d/..")`, `remove_dir_all("d/e/../../d")`);
 * `rmdir` of the root fails (`remove_dir_all(".")` empties the sandbox root and then fails), and so does
-  `rmdir` of a path whose last component is `..` (this arises only for `..` taken at the root);
+  `rmdir` of a path whose last component is `.` (`remove_dir_all("d/.")` empties `d` and then fails, `d`
+  stays) or `..` (this arises only for `..` taken at the root);
 * otherwise the directory, now empty, is removed. -/
 def dirRemoveAllAt (t : Tree) (s : Str) (p : Path) : Tree × Bool :=
   if s == [] || !isDir t p then (t, false) else
   match resolve (eraseBelow t p) s with
   | none => (eraseBelow t p, true)
-  | some _ => if p == [] || endsDotDot s then (eraseBelow t p, false) else (eraseUnder t p, true)
+  | some _ => if p == [] || lastDots s then (eraseBelow t p, false) else (eraseUnder t p, true)
 
 def dirReadAt (t : Tree) (s : Str) (p : Path) : Option (List Str) :=
   if s == [] || !isDir t p then none else
@@ -223,17 +242,31 @@ def mkdirVisits : Path → List Str → List Path
   | cur, c :: cs =>
     if c == dotdot then mkdirVisits (parent cur) cs else (cur ++ [c]) :: mkdirVisits (cur ++ [c]) cs
 
-/-- `create_dir_all`: fails when a directory it wants to see is a file. Without `..` nothing has been
-made by then; with `..` the directories visited before the file have been
-(`create_dir_all("new/../file/x")` makes `new`, then fails).
+/-- `create_dir_all` over the directories `vs` it wants to see: fails when one of them is a file.
+Without `..` nothing has been made by then; with `..` the directories visited before the file have
+been (`create_dir_all("new/../file/x")` makes `new`, then fails).
 (The ancestors of the file are left out of what is made before the failure: they exist in every tree
 in which the ancestors of an entry exist, and leaving them out makes the function what it was for
 `..`-free strings on every association list.) -/
-def dirCreateAll (t : Tree) (s : Str) : Tree × Bool :=
-  let vs := mkdirVisits [] (components s)
+def mkdirRun (t : Tree) (vs : List Path) : Tree × Bool :=
   match vs.find? (fun q => isFile t q) with
   | none => (vs.foldl mkdirStep t, true)
   | some f =>
     (((vs.takeWhile fun q => !isFile t q).filter fun q => !(q.isPrefixOf f)).foldl mkdirStep t, false)
+
+/-- `create_dir_all("a/b/.")` does not make `b`: the ancestors of that path string are `a/b/.` itself and
+`a` (src: `Path::parent` drops the `.` together with `b`), and `mkdir("a/b/.")` makes nothing — it is
+`EEXIST` when `a/b` is a directory (fine), `ENOENT` / `ENOTDIR` otherwise (failure, after `a` was made).
+So when the last component is `.` and the one before it is a name, that last directory must be there. -/
+def lastMustExist (s : Str) : Bool := endsDot s && !endsDotDot s && components s != []
+
+/-- the directories `create_dir_all` makes when they are missing -/
+def dirCreateAllVisits (s : Str) : List Path :=
+  if lastMustExist s then (mkdirVisits [] (components s)).dropLast else mkdirVisits [] (components s)
+
+/-- `create_dir_all` -/
+def dirCreateAll (t : Tree) (s : Str) : Tree × Bool :=
+  let r := mkdirRun t (dirCreateAllVisits s)
+  if lastMustExist s then (r.1, r.2 && isDir r.1 ((mkdirVisits [] (components s)).getLast?.getD [])) else r
 
 end Aplang.Fs
